@@ -87,6 +87,9 @@ JoinClean(d, c) ==
 
 DirNode     == [kind |-> "dir",  data |-> NoData]
 FileNode(d) == [kind |-> "file", data |-> d]
+\* a symbolic link (data = its target, relative to the directory it is in).  Write never follows one: O_EXCL refuses
+\* an existing directory entry whatever it is, also a link whose target does not exist
+LinkNode(t) == [kind |-> "other", data |-> t]
 
 IsPrefix(p, q) == Len(p) <= Len(q) /\ SubSeq(q, 1, Len(p)) = p
 Parent(p) == SubSeq(p, 1, Len(p)-1)
